@@ -186,7 +186,14 @@ class Interp:
         self.lin_solver.reset()
         self.lin_solver.set('timeout', FEAS_TIMEOUT_MS)
         self.lin_solver.set('smt.arith.nl', False)
+        # feasibility only prunes: no model-based quantifier instantiation (an `unknown` counts as feasible)
+        self.lin_solver.set('smt.mbqi', False)
+        self.solver.set('smt.mbqi', False)
         self.probe = 0
+        self.polarity = 'oblige'    # how the spec clause being evaluated is used: assumed or to be proved
+        self.lazy_inv = []          # pending element invariants of dict fields (instantiated on key lookup)
+        self.lazy_done = set()
+        self.in_lazy = False
         self.nonlinear = False      # set when a product / quotient of two symbolic reals enters the path condition
 
     def snapshot(self):
@@ -273,16 +280,38 @@ class Interp:
         if not z3.is_true(f) and not any(f.eq(x) for x in self.axioms):
             self.axioms.append(f)
 
+    def _sync(self, solver, ids_attr):
+        """make the solver's assertion stack equal to axioms + path condition, one scope per
+        assertion, popping back to the common prefix instead of resetting"""
+        want = self.pc + self.axioms
+        ids = [p.get_id() for p in want]
+        have = getattr(self, ids_attr)
+        n = 0
+        while n < len(have) and n < len(ids) and have[n] == ids[n]:
+            n += 1
+        if len(have) > n:
+            solver.pop(len(have) - n)
+        for p in want[n:]:
+            solver.push()
+            solver.add(p)
+        setattr(self, ids_attr, ids)
+
     def sync_solver(self):
-        """keep the incremental solver's assertions equal to axioms + path condition"""
-        ids = [p.get_id() for p in self.axioms + self.pc]
-        if self.solver_ids != ids[:len(self.solver_ids)]:
-            self.solver.reset()
-            self.solver.set('timeout', FEAS_TIMEOUT_MS)
-            self.solver_ids = []
-        for p in (self.axioms + self.pc)[len(self.solver_ids):]:
-            self.solver.add(p)
-        self.solver_ids = ids
+        self._sync(self.solver, 'solver_ids')
+
+    def _pc_literals(self):
+        key = (len(self.pc), self.pc[-1].get_id() if self.pc else 0)
+        if getattr(self, '_lit_key', None) != key:
+            lits = set()
+            stack = list(self.pc)
+            while stack:
+                f = stack.pop()
+                if z3.is_and(f):
+                    stack.extend(f.children())
+                else:
+                    lits.add(f.get_id())
+            self._lits, self._lit_key = lits, key
+        return self._lits
 
     def feasible(self, cond):
         c = self.refine(cond)
@@ -290,17 +319,18 @@ class Interp:
             return True
         if z3.is_false(c):
             return False
+        # syntactic fast path: the condition or its negation is literally a conjunct of the path condition
+        lits = self._pc_literals()
+        neg = simp(z3.Not(c))
+        if c.get_id() in lits:
+            return True
+        if neg.get_id() in lits:
+            return False
+        if z3.is_and(c) and any(simp(z3.Not(ch)).get_id() in lits for ch in c.children()):
+            return False
         t0 = time.time()
         # stage 1: linear view (products uninterpreted) - an `unsat` here is final
-        ids = [p.get_id() for p in self.axioms + self.pc]
-        if self.lin_ids != ids[:len(self.lin_ids)]:
-            self.lin_solver.reset()
-            self.lin_solver.set('timeout', FEAS_TIMEOUT_MS)
-            self.lin_solver.set('smt.arith.nl', False)
-            self.lin_ids = []
-        for p in (self.axioms + self.pc)[len(self.lin_ids):]:
-            self.lin_solver.add(p)
-        self.lin_ids = ids
+        self._sync(self.lin_solver, 'lin_ids')
         self.lin_solver.push()
         try:
             self.lin_solver.add(c)
@@ -394,6 +424,17 @@ class Interp:
             self.pc.append(c)
             self.learn(c)
 
+    def kind_hint(self, ty):
+        if not ty:
+            return None
+        if ty in self.world.classes or ty.startswith('callable:'):
+            return vals.CTOR_INDEX['ObjV']
+        head = ty.split(':', 1)[0].split('|', 1)[0]
+        m = {'dict': 'DictV', 'enumdict': 'DictV', 'list': 'ListV', 'tuple': 'TupleV', 'ImmutableDict': 'DictV'}
+        if head in m:
+            return vals.CTOR_INDEX[m[head]]
+        return None
+
     def split_kind(self, v):
         """make the constructor of a value known on this path (n-way branch)"""
         if not isinstance(v, SV):
@@ -405,7 +446,12 @@ class Interp:
         if p.pos < len(p.script) or self.probe:
             self.choose([Val.recognizer(k)(t) for k in range(len(vals.CTOR_NAMES))], 'kind')
         else:
-            tags = self.feasible_tags(t)
+            tags = None
+            hint = self.kind_hint(v.ty)
+            if hint is not None and not self.feasible(z3.Not(Val.recognizer(hint)(t))):
+                tags = [hint]       # the declared type's constructor is implied by the path condition
+            if tags is None:
+                tags = self.feasible_tags(t)
             self.choose([Val.recognizer(k)(t) for k in range(len(vals.CTOR_NAMES))], 'kind', feasible=tags)
         return SV(self.refine(t), v.ty, v.src)
 
